@@ -275,8 +275,16 @@ func runC16(r *core.Run) {
 		}
 		return c
 	}
+	// the report's FAMILY_ID is the guest owner's to set (ID block); the object name is a function of
+	// the measurement alone
+	famID := make([]byte, 16)
+	if r.Chance(25, "report-family-id?") {
+		famID = bytes.Repeat([]byte{byte(1 + r.Intn(200, "family-byte"))}, 16)
+	}
 	rawReport := func(m []byte) []byte {
-		b, err := abi.ReportToAbiBytes(SnpReport(m))
+		rp := SnpReport(m)
+		rp.FamilyId = append([]byte(nil), famID...)
+		b, err := abi.ReportToAbiBytes(rp)
 		if err != nil {
 			panic(err)
 		}
@@ -285,15 +293,23 @@ func runC16(r *core.Run) {
 	rawWithCerts := func(entry bool) []byte {
 		return append(rawReport(meas), abi.CertsFromProto(chain(entry)).Marshal()...)
 	}
+	snpReport := func(m []byte) *spb.Report {
+		rp := SnpReport(m)
+		rp.FamilyId = append([]byte(nil), famID...)
+		return rp
+	}
 	mkQuote := func(kind string) (q []byte, hasEntry bool, measOK bool, tdx bool) {
 		switch kind {
 		case "tpm+entry":
-			q, _ = proto.Marshal(&tpmpb.Attestation{TeeAttestation: &tpmpb.Attestation_SevSnpAttestation{SevSnpAttestation: &spb.Attestation{Report: SnpReport(meas), CertificateChain: chain(true)}}})
+			q, _ = proto.Marshal(&tpmpb.Attestation{TeeAttestation: &tpmpb.Attestation_SevSnpAttestation{SevSnpAttestation: &spb.Attestation{Report: snpReport(meas), CertificateChain: chain(true)}}})
 			return q, true, true, false
 		case "tpm":
-			q, _ = proto.Marshal(&tpmpb.Attestation{TeeAttestation: &tpmpb.Attestation_SevSnpAttestation{SevSnpAttestation: &spb.Attestation{Report: SnpReport(meas), CertificateChain: chain(false)}}})
+			q, _ = proto.Marshal(&tpmpb.Attestation{TeeAttestation: &tpmpb.Attestation_SevSnpAttestation{SevSnpAttestation: &spb.Attestation{Report: snpReport(meas), CertificateChain: chain(false)}}})
 			return q, false, true, false
 		case "report-proto":
+			// (a bare Report proto is told from the other formats by sniffing; with a non-zero
+			// FAMILY_ID its bytes are taken for another format — a sniffing oddity no listed property
+			// covers — so this container keeps the zero id)
 			q, _ = proto.Marshal(SnpReport(meas))
 			return q, false, true, false
 		case "raw+certs+entry":
@@ -326,7 +342,7 @@ func runC16(r *core.Run) {
 		case "garbage":
 			return []byte("this is not an attestation in any supported format \xff\xfe"), false, false, false
 		case "empty-measurement":
-			rp := SnpReport(meas)
+			rp := snpReport(meas)
 			rp.Measurement = nil
 			q, _ = proto.Marshal(&tpmpb.Attestation{TeeAttestation: &tpmpb.Attestation_SevSnpAttestation{SevSnpAttestation: &spb.Attestation{Report: rp, CertificateChain: chain(false)}}})
 			return q, false, false, false
